@@ -197,6 +197,16 @@ def reference(line):
         return fmt(flat(mmul(rows_of(v, 4, 4), [[x] for x in v[16:19]] + [[0]]))[:3])
     if op == "m3v3" and n == 12:
         return fmt(flat(mmul(rows_of(v, 3, 3), [[x] for x in v[9:12]])))
+    if op == "v3cross" and n == 6:
+        a, b = v[:3], v[3:]
+        # the vector c with c . w = det[a; b; w] for every w
+        return fmt([leibniz([a, b, [1 if k == i else 0 for k in range(3)]]) for i in range(3)])
+    if op == "v3dot" and n == 6:
+        return str(sum(v[i] * v[3 + i] for i in range(3)) % P)
+    if op == "v3lin" and n == 7:
+        return fmt([v[i] + v[3 + i] * v[6] - v[3 + i] for i in range(3)])
+    if op == "v3len2" and n == 3:
+        return str(sum(x * x for x in v) % P)
     if op == "qmul" and n == 8:
         return fmt(qmul_ref(v[:4], v[4:]))
     if op == "qconj" and n == 4:
@@ -357,6 +367,12 @@ def gen_exact(rng, tier):
         AB = fmt(flat(mmul(A, B)))
         cases.append(["m3det " + a, "m3inv " + a, "m3invchk " + a, "m3mul %s %s" % (a, b), "m3det " + b, "m3det " + AB,
                       "m3tr " + a, "m3v3 %s %s" % (a, fmt([rf(rng) for _ in range(3)]))])
+    # Vec3
+    for i in range(N // 2):
+        a, b = [rf(rng) for _ in range(3)], [rf(rng) for _ in range(3)]
+        if i % 4 == 1:
+            a, b = [small(rng) for _ in range(3)], [small(rng) for _ in range(3)]
+        cases.append(["v3cross %s %s" % (fmt(a), fmt(b)), "v3dot %s %s" % (fmt(a), fmt(b)), "v3lin %s %s %d" % (fmt(a), fmt(b), rf(rng)), "v3len2 " + fmt(a)])
     # quaternions
     for i in range(N):
         p, q = unit_quat(rng), unit_quat(rng)
@@ -597,10 +613,81 @@ def distribution(cases):
             "singular_square_systems(model=impl only)": sing, "overdetermined_systems": ls, "rank_deficient_overdetermined": lsdef}
 
 
+def oracle(case, impl, model, crash):
+    """the property oracle on the implementation alone, used to word the verdict of a shrunk failure"""
+    if crash:
+        return True, "memory error / abnormal termination: %s" % crash
+    lines = ["case"] + list(case)
+    for i, l in enumerate(lines):
+        if i >= len(impl) or l.startswith("case"):
+            continue
+        if l.startswith("f"):
+            if impl[i] != "ok":
+                return True, ("numeric clause violated (float/double result against the long double reference, bound c*eps*cond "
+                              "resp. 8*sqrt(eps) for angle extraction): " + impl[i])
+            continue
+        exp = reference(l)
+        if exp is not None and impl[i] != exp:
+            return True, ("exact clause violated over the prime field 2^61-1: the independent reference (%s) expects %s, "
+                          "the library returned %s" % (REFERENCE_NAME.split(":")[0], exp[:120], impl[i][:120]))
+    for i, l in enumerate(lines):
+        if i < len(impl) and i < len(model) and impl[i] != model[i]:
+            return True, ("the library's result differs from the Lean model (%s), whose results the theorems of AslProps/C20.lean "
+                          "characterise; no independent reference value exists for this input (e.g. a singular system)" % l.split()[0])
+    return False, "no clause of the property is violated by this input"
+
+
+def obligation_search(ctx):
+    """a proof obligation over the regenerated closed forms broke and the generated cases did not exhibit a failing input:
+    evaluate the real templates at fresh random field points against the independent references"""
+    from lib import core
+    from lib.engine import Failure
+    rng = ctx["rng"]
+    lines = []
+    for i in range(1500):
+        A, B = rand_mat(rng, 4, 4, "uniform"), rand_mat(rng, 4, 4, "uniform")
+        lines += ["m4inv " + fmt(flat(A)), "m4det " + fmt(flat(A)), "m4mul %s %s" % (fmt(flat(A)), fmt(flat(B))), "m4tr " + fmt(flat(A))]
+        A, B = rand_mat(rng, 3, 3, "uniform"), rand_mat(rng, 3, 3, "uniform")
+        lines += ["m3inv " + fmt(flat(A)), "m3det " + fmt(flat(A)), "m3mul %s %s" % (fmt(flat(A)), fmt(flat(B)))]
+        p, q = unit_quat(rng), unit_quat(rng)
+        lines += ["qmul %s %s" % (fmt(p), fmt(q)), "qmat " + fmt(p), "qrotrt " + fmt(q), "qinv " + fmt(p),
+                  "v3cross %s %s" % (fmt(p[:3]), fmt(q[:3]))]
+    impl, crash, err = core.run_impl(ctx["exe"], ["case 0"] + lines, timeout=300)
+    for l, o in zip(lines, impl[1:]):
+        exp = reference(l)
+        if exp is not None and o != exp:
+            f = Failure("diverge", [l], ["case", o], ["case", exp],
+                        clause="exact clause violated over the prime field: independent reference expects %s" % exp[:160])
+            return f
+    return None
+
+
 EXHAUSTIVE = {}
 
 TECHNIQUE = ("Lean 4 theorems over an arbitrary field (ring/field_simp identities on definitions regenerated from the C++ headers; "
              "invariant proof of Gaussian elimination for any pivot choice) + differential correspondence check of the real templates "
              "instantiated over the prime field 2^61-1 + numeric validation of float/double against long double")
-LEVEL_TEXT = "(filled below)"
-LEVEL_NOTE = "(filled below)"
+LEVEL_TEXT = ("Proved in Lean 4 over an arbitrary field, about definitions REGENERATED from the C++ headers on every run: Matrix4/Matrix3 "
+              "det() = Mathlib's determinant, operator* = matrix product, the cofactor matrix of inverse() is the adjugate "
+              "(M*adj = adj*M = det*I), M*inverse(M) = inverse(M)*M = I and inverse() = Mathlib's inverse for every non-singular M, "
+              "det(AB) = det(A)det(B), transposed/vector products; Quaternion operator^ = Hamilton product of Mathlib's quaternion algebra, "
+              "conj/length2/inverse, matrix() acts as q v q*, is orthogonal with det 1 and is multiplicative on unit quaternions; every "
+              "branch of Matrix4::rotation() returns q or -q for the matrix of a unit quaternion q when its root is a non-zero square "
+              "root, and over every ordered field the branch conditions guarantee that (rotation_correct_ordered); Vec3 cross/dot. "
+              "Proved about the hand-written transcription of solve_/solve/Matrix::inverse (tied to the code by the correspondence "
+              "check): for every non-singular n x n system, every number of right-hand sides and EVERY pivot-selection function that "
+              "returns a non-zero candidate when one exists, A*solve(A,b) = b; the code's search loop is such a function; the result is "
+              "independent of the pivot choice; for non-square A with non-singular AtA the result satisfies the normal equations. "
+              "The correspondence check instantiates the real templates over the prime field 2^61-1 and compares every result with the "
+              "compiled Lean model and with independent python references (systems up to 12x12, thorough 20x20, incl. ones that need row "
+              "exchanges at every step). Floating-point clauses (residual <= c*eps*cond for inverse/det/solve/least squares; quaternion "
+              "<-> matrix <-> axis-angle <-> 24 Euler conventions incl. gimbal lock and 180 degrees) are validated numerically against "
+              "long double references only.")
+LEVEL_NOTE = ("Trusted: Lean kernel; the expression translator tools/props/c20_translate.py; harness/c20.cpp (prime-field scalar class, long "
+              "double references). NOT theorems (numeric validation by the correspondence harness only, because Lean's kernel has no IEEE "
+              "floats and the conversions use sqrt/asin/acos/atan2): all float/double residual bounds; axisAngle()/fromAxisAngle()/"
+              "rotate(axis,angle); eulerAngles()/rotateE() for the 12 axis orders in fixed and moving frames (tolerance 8*sqrt(eps) for "
+              "angle extraction, which is the conditioning of this algorithm next to gimbal lock; 64*eps for quaternion<->matrix). "
+              "The solve_ model is hand-written (K-tied), not regenerated; its inner jj-loop is modelled as the simultaneous row update "
+              "it is equal to. Theorems assume field laws: they say nothing about rounding. Two defects were found and repaired in "
+              "/repo (fix: commits ddac4e2 Matrix3 operator*, 59184ad eulerAngles near gimbal lock); witnesses in corpus/C20.")
